@@ -1486,3 +1486,176 @@ def run_multilib():
 
 
 CORPUS = _corpus()
+
+
+# =====================================================================================================
+# save/save/load HISTORIES on one location: a save is a total overwrite
+# =====================================================================================================
+# Clauses (all on the implementation; testing):
+#   history-reload-equals-last   save S1 at L, save S2 at L, load L  ==  S2
+#   save-overwrites-location     the files at L after (S1; S2) are, name for name and byte for byte, the files a
+#                                single save of S2 writes into a fresh location: nothing of S1 is left
+#   (the list of section files of the fresh TSV save is returned as "tsv_files" and compared by harness/c05.py with
+#    the file set of the Coq model, clause tsv-file-set)
+# L is an XML file, a MediaWiki file or a TSV folder.  S1/S2 are bundled schemas or clean generated edits
+# (no planted boundary description), saved merged or -- partnered libraries -- unmerged.
+
+HISTORY_FMTS = ("xml", "mediawiki", "tsv")
+
+
+def _schema_of(spec):
+    from hed.schema import load_schema, from_string
+    c = ctx_for(spec["schema"], spec.get("base", "merged"))
+    if spec["kind"] == "bundled":
+        return load_schema(c.path), c
+    root = copy.deepcopy(c.root)
+    for op in spec["ops"]:
+        apply_op(root, op)
+    return from_string(ET.tostring(root, encoding="unicode"), ".xml"), c
+
+
+def _loc_path(fmt, loc):
+    return loc + ".xml" if fmt == "xml" else loc + ".mediawiki" if fmt == "mediawiki" else loc
+
+
+def _save_at(s, fmt, loc, m):
+    p = _loc_path(fmt, loc)
+    if fmt == "xml":
+        s.save_as_xml(p, m)
+    elif fmt == "mediawiki":
+        s.save_as_mediawiki(p, m)
+    else:
+        s.save_as_dataframes(p, m)
+    return p
+
+
+def _snapshot(p):
+    """{relative file name: bytes} of a file or folder."""
+    out = {}
+    if os.path.isdir(p):
+        for dp, _, fs in os.walk(p):
+            for f in fs:
+                with open(os.path.join(dp, f), "rb") as fh:
+                    out[os.path.relpath(os.path.join(dp, f), p)] = fh.read()
+    elif os.path.exists(p):
+        with open(p, "rb") as fh:
+            out[""] = fh.read()
+    return out
+
+
+def run_history(case):
+    """case = {"kind":"history","fmt":..,"s1":spec,"m1":bool,"s2":spec,"m2":bool}; same result shape as run_case."""
+    from hed.schema import load_schema
+    t0 = time.process_time()
+    res = {"case": case, "outcome": "ok", "failures": [], "n_roundtrips": 0, "stats": {"history": 1}}
+    d = C.scratch_dir("hedverif-c05h-")
+    try:
+        fmt = case["fmt"]
+        try:
+            s1, _ = _schema_of(case["s1"])
+            s2, c2 = _schema_of(case["s2"])
+        except Exception as e:  # noqa -- an edit the implementation refuses is not a history question
+            res["outcome"] = "edit_rejected"
+            res["stats"]["rejected_with"] = f"{type(e).__name__}: {str(e)[:120]}"
+            return res
+        m1 = bool(case["m1"]) or not s1.with_standard
+        m2 = bool(case["m2"]) or not s2.with_standard
+        loc, fresh = os.path.join(d, "loc", "sch"), os.path.join(d, "fresh", "sch")
+        os.makedirs(os.path.dirname(loc))
+        os.makedirs(os.path.dirname(fresh))
+        wit = f"{fmt}: save {_case_witness(case['s1'])} (merged={m1}), then {_case_witness(case['s2'])} (merged={m2})"
+        try:
+            _save_at(s1, fmt, loc, m1)
+            p = _save_at(s2, fmt, loc, m2)
+            pf = _save_at(s2, fmt, fresh, m2)
+        except Exception as e:  # noqa
+            res["failures"].append(_fail("history-reload-equals-last", fmt, m2, f"save raised {type(e).__name__}: {str(e)[:200]}",
+                                         witness=wit))
+            return res
+        a, b = _snapshot(p), _snapshot(pf)
+        if fmt == "tsv":
+            # sch_<Suffix>.tsv -> Suffix
+            res["tsv_files"] = sorted(k[len("sch_"):-len(".tsv")] for k in b)
+        if a != b:
+            extra = sorted(set(a) - set(b))
+            missing = sorted(set(b) - set(a))
+            changed = sorted(k for k in set(a) & set(b) if a[k] != b[k])
+            res["failures"].append(_fail(
+                "save-overwrites-location", fmt, m2,
+                f"after two saves the location differs from a single save of the last schema: left over {extra}, "
+                f"missing {missing}, different content {changed}", witness=wit))
+        try:
+            r = load_schema(p)
+            res["n_roundtrips"] = 1
+            if not (r == s2):
+                dd = schema_diff(s2, r)
+                res["failures"].append(_fail("history-reload-equals-last", fmt, m2,
+                                             f"reload after two saves != last schema saved: {_fmt_diff(dd)}",
+                                             witness=wit))
+        except Exception as e:  # noqa
+            res["failures"].append(_fail("history-reload-equals-last", fmt, m2,
+                                         f"load raised {type(e).__name__}: {str(e)[:200]}", witness=wit))
+    except Exception:  # noqa
+        res["failures"].append(_fail("harness-error", None, None, traceback.format_exc()[-1500:]))
+    finally:
+        shutil.rmtree(d, ignore_errors=True)
+        res["stats"]["cpu_s"] = round(time.process_time() - t0, 2)
+    return res
+
+
+def _sections_edit(rng, schema, base):
+    """An edit that puts entries into sections that are empty in an unmerged save of the bundled schema: a unit
+    class with units, a value class and a unit modifier (plus one ordinary op)."""
+    c = ctx_for(schema, base)
+    g = _Gen(rng, c, None)
+    g.op_add_unit_class()
+    g.op_add_value_class()
+    g.op_add_modifier()
+    g.op_add_tag()
+    return {"kind": "edit", "schema": schema, "base": base, "ops": g.ops, "files": False}
+
+
+def gen_histories(rng, tier):
+    """Deterministic list of history cases."""
+    have = set(bundled())
+    out = []
+
+    def B(f):
+        return {"kind": "bundled", "schema": f}
+
+    def add(fmt, s1, m1, s2, m2):
+        if all(x["schema"] in have for x in (s1, s2)):
+            if fmt == "tsv" and any(x["schema"] in LEGACY_LIBS for x in (s1, s2)):
+                return
+            out.append({"kind": "history", "fmt": fmt, "s1": s1, "m1": m1, "s2": s2, "m2": m2})
+    partnered = ["HED_score_2.0.0.xml", "HED_testlib_2.0.0.xml"] + (
+        ["HED_score_1.1.0.xml", "HED_testlib_2.1.0.xml", "HED_testlib_3.0.0.xml"] if tier == "thorough" else [])
+    # another bundled schema over it (a newer standard schema has sections/attributes the older one lacks)
+    for fmt in HISTORY_FMTS:
+        add(fmt, B("HED8.3.0.xml"), True, B("HED8.0.0.xml"), True)
+        add(fmt, B("HED_score_2.0.0.xml"), True, B("HED_testlib_2.0.0.xml"), False)
+    # merged then unmerged (and back) of one partnered library
+    for lib in partnered:
+        for fmt in HISTORY_FMTS if tier == "thorough" else ("tsv", rng.choice(["xml", "mediawiki"])):
+            add(fmt, B(lib), True, B(lib), False)
+        add("tsv", B(lib), False, B(lib), True)
+    # S1 = S2 plus entries in sections that S2 leaves empty; S1 = edit, S2 = the same with entries removed
+    n = 4 if tier == "quick" else 40
+    for i in range(n):
+        r = random.Random(rng.getrandbits(64))
+        lib = r.choice(partnered)
+        base = r.choice(["merged", "unmerged"])
+        fmt = "tsv" if i % 2 == 0 else r.choice(HISTORY_FMTS)
+        add(fmt, _sections_edit(r, lib, base), False, B(lib), False)
+    for i in range(n):
+        r = random.Random(rng.getrandbits(64))
+        schema, base = r.choice([("HED8.3.0.xml", "merged"), ("HED_score_2.0.0.xml", "merged"),
+                                 ("HED_testlib_2.0.0.xml", "unmerged"), ("HED8.2.0.xml", "merged")])
+        s1 = gen_edit_case(r, schema, base, None)
+        s2 = gen_edit_case(r, schema, base, None)
+        add(r.choice(HISTORY_FMTS), s1, r.random() < 0.5, s2, r.random() < 0.5)
+    return out
+
+
+def run_any(case):
+    return run_history(case) if case.get("kind") == "history" else run_case(case)
